@@ -163,7 +163,7 @@ def uniq_case(draw):
     dtype = draw(st.sampled_from(['i4', 'f8', 'i8']))
     vals = [draw(st.integers(-4, 4)) for _ in range(n)] if draw(st.integers(0, 4)) else [draw(st.integers(-4, 4))] * n
     inf = dtype == 'f8' and draw(st.integers(0, 3)) == 0        # runs of +-infinity at the ends of a sorted float array
-    return dict(x=vals, dtype=dtype, use_index=draw(st.booleans()), inf=inf)
+    return dict(x=vals, dtype=dtype, use_index=draw(st.booleans()), inf=inf, descending=draw(st.sampled_from([False, False, True])))
 
 
 def uniq_body(case):
@@ -173,10 +173,16 @@ def uniq_body(case):
         x = np.where(x <= -3, -np.inf, np.where(x >= 3, np.inf, x))
     if case['use_index']:
         idx = np.argsort(x, kind='stable')
+        if case.get('descending') and len(set(x.tolist())) > 1:
+            # sorted into descending order: monotonic all the same.  (Not for constant arrays: there IDL - and pydl - answer n-1
+            # rather than index[n-1], which only coincide for the identity index; title of the property: "follow IDL semantics")
+            idx = idx[::-1].copy()
         got = call(uniq, x, idx)
         q = x[idx]
     else:
         x = np.sort(x)
+        if case.get('descending'):
+            x = x[::-1].copy()
         idx = np.arange(len(x))
         got = call(uniq, x)
         q = x
@@ -284,6 +290,13 @@ def rebin_body(case):
 
 @st.composite
 def rebin_bad_case(draw):
+    if draw(st.integers(0, 40)) == 0:
+        # spectrum- and image-sized axes: the factor is non-integral by one part in 1e5 or less
+        big = draw(st.sampled_from([200001, 300007, 131073]))
+        k = draw(st.sampled_from([k_ for k_ in (2, 3, 7, 11) if big % k_ != 0]))
+        if draw(st.booleans()):
+            return dict(shape=[big], target=[k], mode='nonintegral', sample=draw(st.booleans()))
+        return dict(shape=[k * 1000], target=[big], mode='nonintegral', sample=draw(st.booleans()))
     ndim = draw(st.sampled_from([1, 2, 3]))
     shape = [draw(st.integers(2, 7)) for _ in range(ndim)]
     mode = draw(st.sampled_from(['nonintegral', 'nonintegral', 'rank']))
